@@ -57,6 +57,8 @@ func TestC15Runnable(t *testing.T) {
 		"proxy.auth":                  {"", "name=b1;type=basic;file=" + htpasswd},
 		"tracing.TracingEnabled":      {"false"},
 		"proxy.log.routes":            {"", "delta", "all"},
+		// several listeners share the process-wide options (nothing is bound here)
+		"proxy.addr": {":19999", ":19999,:19998", ":19999;proto=http,:19998;proto=grpc,:19997;proto=http,:19996;proto=tcp"},
 	}
 	var names []string
 	for k := range choices {
